@@ -992,6 +992,11 @@ func (ro *RedisOutput) sendCmdsBatch(replayWait usync.WaitCloser, conn client.Re
 			}
 		}
 
+		if shouldUpdateCP && lastOffset < 0 {
+			// nothing has been replayed yet (idle source, keep-alive or ticker before the
+			// first command): keep the stored position instead of overwriting it with -1
+			shouldUpdateCP = false
+		}
 		if shouldUpdateCP {
 			if ro.cfg.EnableResumeFromBreakPoint {
 				if len(cmdQueue) > 0 {
